@@ -311,3 +311,125 @@ Section Reader2.
   Definition st_from_ascii (p1 : N) (s : list N) : stres :=
     st_loop (split_on p1 (trim s)) 0 0 [].
 End Reader2.
+
+(** ---------- the streaming ASCII variant (to_ascii_stream / from_ascii_stream) ----------
+    Writer: "qty=<NAME>\n" "depth=<d>\n" then one line per element: "<d>/<i>", "<d>/<a>-<b>" with b
+    EXCLUSIVE, or "<d>/<a>+<len>" with len = number of cells.
+    Reader: BufRead::lines (split on '\n', a final empty piece is not a line; the '\r' a line may end
+    with is removed by the trim every use starts with), first line "qty = NAME", second "depth = d"
+    (u8, <= MAX_DEPTH), then every line is trimmed and parsed (str::parse of an unsigned integer: an
+    optional '+', then digits only, no overflow); a line that does not parse or whose depth / index is
+    out of the domain is SKIPPED.  No sort, no validation: the elements come out in file order. *)
+Definition qname (q : qty) : list N :=
+  match q with
+  | Hpx => [72; 80; 88]
+  | Time => [84; 73; 77; 69]
+  | Freq => [70; 82; 69; 81; 85; 69; 78; 67; 89]
+  end.
+
+Definition stream_line (use_len : bool) (x : aelem) : list N :=
+  match x with
+  | ECell d i => adec d ++ [47] ++ adec i ++ [10]
+  | ERange d s e => if use_len then adec d ++ [47] ++ adec s ++ [43] ++ adec (e - s) ++ [10]
+                    else adec d ++ [47] ++ adec s ++ [45] ++ adec e ++ [10]
+  end.
+
+Definition to_ascii_stream (q : qty) (dmax : N) (use_len : bool) (es : list aelem) : list N :=
+  [113; 116; 121; 61] ++ qname q ++ [10] ++ [100; 101; 112; 116; 104; 61] ++ adec dmax ++ [10]
+  ++ flat_map (stream_line use_len) es.
+
+Definition lines (s : list N) : list (list N) :=
+  let ps := split_on 10 s in
+  match rev ps with [] :: r => rev r | _ => ps end.
+
+Definition parse_uint (w : N) (s : list N) : option N :=
+  let s' := match s with 43 :: t => t | _ => s end in
+  match s' with
+  | [] => None
+  | _ => if forallb is_digit s' then (if dval s' <? 2 ^ w then Some (dval s') else None) else None
+  end.
+
+Definition split_eq_trim (line : list N) : option (list N * list N) :=
+  match split_once 61 (trim line) with Some (l, r) => Some (trim l, trim r) | None => None end.
+
+Fixpoint list_eqb (a b : list N) : bool :=
+  match a, b with
+  | [], [] => true
+  | x :: a', y :: b' => (x =? y) && list_eqb a' b'
+  | _, _ => false
+  end.
+
+Definition contains (c : N) (s : list N) : bool := existsb (N.eqb c) s.
+
+Definition parse_item (q : qty) (w : N) (line0 : list N) : option aelem :=
+  let line := trim line0 in
+  match line with
+  | [] => None
+  | _ =>
+    match split_once 47 line with
+    | None => None
+    | Some (ds, cr) =>
+      match parse_uint 8 ds with
+      | None => None
+      | Some d =>
+        if max_depth q w <? d then None else
+        let n := n_cells q d in
+        if contains 45 cr then
+          match split_once 45 cr with
+          | Some (a, b) =>
+            match parse_uint w a, parse_uint w b with
+            | Some s, Some e => if (s <? e) && (e <=? n) then Some (ERange d s e) else None
+            | _, _ => None
+            end
+          | None => None
+          end
+        else if contains 43 cr then
+          match split_once 43 cr with
+          | Some (a, b) =>
+            match parse_uint w a, parse_uint w b with
+            | Some s, Some l => let e := sat_add w s l in
+                                if (s <? e) && (e <=? n) then Some (ERange d s e) else None
+            | _, _ => None
+            end
+          | None => None
+          end
+        else match parse_uint w cr with
+             | Some i => if i <? n then Some (ECell d i) else None
+             | None => None
+             end
+      end
+    end
+  end.
+
+Fixpoint filter_map {A B} (f : A -> option B) (l : list A) : list B :=
+  match l with [] => [] | a :: t => match f a with Some b => b :: filter_map f t | None => filter_map f t end end.
+
+Inductive serr := SEmptyReader | SQtyExpected | SNoData | SDepthExpected | SDepthNotValid.
+Inductive sres := SOk (d : N) (l : list aelem) | SErr (e : serr).
+
+Definition from_ascii_stream (q : qty) (w : N) (s : list N) : sres :=
+  match lines s with
+  | [] => SErr SEmptyReader
+  | l1 :: rest =>
+    match split_eq_trim l1 with
+    | Some (a, b) =>
+      if list_eqb a [113; 116; 121] && list_eqb b (qname q) then
+        match rest with
+        | [] => SErr SNoData
+        | l2 :: items =>
+          match split_eq_trim l2 with
+          | Some (a2, b2) =>
+            if list_eqb a2 [100; 101; 112; 116; 104] then
+              match parse_uint 8 b2 with
+              | Some d => if max_depth q w <? d then SErr SDepthNotValid
+                          else SOk d (filter_map (parse_item q w) items)
+              | None => SErr SDepthExpected
+              end
+            else SErr SDepthExpected
+          | None => SErr SDepthExpected
+          end
+        end
+      else SErr SQtyExpected
+    | None => SErr SQtyExpected
+    end
+  end.
